@@ -282,18 +282,6 @@ def cleanGo (items : Dict) (done : List Rule) : List Rule → Sheet × Bool
 
 def cleanNamespaces (s : Sheet) : Sheet × Bool := cleanGo (view s) [] s
 
-/-- where the rule that stood at index `pos` of `done ++ rest` is after the same walk (`none`: it was deleted).
-Python finds the rule by identity (`r is rule`); the model follows its index. -/
-def cleanPos (items : Dict) (done : List Rule) : List Rule → Nat → Option Nat
-  | [], pos => some pos
-  | .ns n :: rest, pos =>
-    if (n.pfx, n.uri) ∈ items then cleanPos items (done ++ [.ns n]) rest pos
-    else if delBlocked (done ++ .ns n :: rest) n.uri then some pos
-    else if pos = done.length then none
-    else if pos > done.length then cleanPos items done rest (pos - 1)
-    else cleanPos items done rest pos
-  | r :: rest, pos => cleanPos items (done ++ [r]) rest pos
-
 /-! ## `insertRule` (`cssstylesheet.py:551-905`) -/
 
 /-- result of a DOM call: its return value, or the exception class -/
@@ -342,12 +330,9 @@ def insertNsAt (s : Sheet) (r : NsRule) (index : Nat) (clean : Bool) : Sheet × 
     let s1 := insertAt s index (.ns r)
     if clean then
       let c := cleanNamespaces s1
-      if c.2 then
-        -- deleteRule raised inside the clean-up: the new rule is taken out again (by identity) before the
-        -- exception is passed on (:817-825); what the clean-up deleted before it failed stays deleted
-        (match cleanPos (view s1) [] s1 index with
-          | some j => c.1.eraseIdx j
-          | none => c.1, .err .noModificationAllowedErr)
+      -- deleteRule raised inside the clean-up: the saved rule list is restored before the exception is passed
+      -- on (`oldCssRules`, :815-829, fixes 3ec898a + 2293ec0)
+      if c.2 then (s, .err .noModificationAllowedErr)
       else if (r.pfx, r.uri) ∈ view s1 then (c.1, .ok (some index))           -- rule still in cssRules
       else (c.1, .ok none)                                                    -- cleaned again (:818-820)
     else (s1, .ok (some index))
